@@ -27,6 +27,9 @@ impl Ref {
     }
 }
 
+/// flag in `Op::Forget::count`: the forget arrives in a BATCH_FORGET request
+pub const VIA_BATCH: u64 = 1 << 62;
+
 #[derive(Clone, Debug)]
 pub enum Op {
     Lookup { parent: Ref, name: Vec<u8> },
@@ -115,7 +118,7 @@ impl Op {
         let k = self.kind();
         match self {
             Op::Lookup { parent, name } => format!("{}:{}:{}", k, parent.show('i'), hex(name)),
-            Op::Forget { ino, count } => format!("{}:{}:{}", k, ino.show('i'), count),
+            Op::Forget { ino, count } => format!("{}:{}:{}", if count & VIA_BATCH != 0 { "bforget" } else { k }, ino.show('i'), count & !VIA_BATCH),
             Op::Getattr { ino, handle } => format!("{}:{}:{}", k, ino.show('i'), oh(handle)),
             Op::Setattr { ino, handle, valid, mode, uid, gid, size, atime, atimens, mtime, mtimens } => format!(
                 "{}:{}:{}:{}:{}:{}:{}:{}:{}:{}:{}:{}", k, ino.show('i'), oh(handle), valid, mode, uid, gid, size, atime, atimens, mtime, mtimens),
@@ -156,6 +159,7 @@ impl Op {
         Some(match *p.first()? {
             "lookup" => Op::Lookup { parent: r(1), name: b(2) },
             "forget" => Op::Forget { ino: r(1), count: n(2) },
+            "bforget" => Op::Forget { ino: r(1), count: n(2) | VIA_BATCH },
             "getattr" => Op::Getattr { ino: r(1), handle: ph(p.get(2).copied().unwrap_or("-")) },
             "setattr" => Op::Setattr { ino: r(1), handle: ph(p.get(2).copied().unwrap_or("-")), valid: n(3) as u32, mode: n(4) as u32, uid: n(5) as u32, gid: n(6) as u32, size: n(7), atime: sn(8), atimens: sn(9), mtime: sn(10), mtimens: sn(11) },
             "readlink" => Op::Readlink { ino: r(1) },
